@@ -99,6 +99,10 @@ pub struct HistCfg {
     /// in the late-pool shape, scan the initial chain in ONE batch (no intermediate frontier is
     /// inserted, so the rewind that follows cannot meet known finding F1)
     pub late_one_batch: bool,
+    /// blocks on the retention grid carry no transaction and every other block carries at least one
+    pub empty_on_grid: bool,
+    /// scan the whole initial chain in ONE batch first (a batch deeper than the pruning window)
+    pub initial_one_batch: bool,
 }
 
 impl HistCfg {
@@ -152,6 +156,8 @@ impl HistCfg {
             coins: false,
             sparse: 0.0,
             late_one_batch: false,
+            empty_on_grid: false,
+            initial_one_batch: false,
         }
     }
 
@@ -166,6 +172,21 @@ impl HistCfg {
         c.steps = rng.gen_range(4..10);
         c.shard_start = false;
         c.dense_outputs = 0;
+        if kind % 3 == 2 {
+            // one batch deeper than the pruning window, every block with commitments except the
+            // blocks on the retention grid
+            c.nu6_3 = true;
+            c.nu6_3_late = 0;
+            c.retention = Some(rng.gen_range(8..20));
+            c.initial_len = rng.gen_range(120..150);
+            c.empty_on_grid = true;
+            c.initial_one_batch = true;
+            c.pools.truncate(rng.gen_range(1..=2));
+            c.max_rewinds = rng.gen_range(0..=1);
+            c.out_of_order = false;
+            c.steps = rng.gen_range(2..6);
+            return c;
+        }
         if kind % 2 == 0 {
             c.nu6_3 = true;
             c.nu6_3_late = rng.gen_range(2..25);
@@ -230,7 +251,7 @@ impl HistCfg {
             "out_of_order": self.out_of_order, "max_rewinds": self.max_rewinds, "steps": self.steps,
             "spend_bias": self.spend_bias, "avoid_f1": self.avoid_f1, "shard_start": self.shard_start, "dense_outputs": self.dense_outputs, "nu6_3_late": self.nu6_3_late,
             "late_pool": self.late_pool.map(|(p, k)| format!("{}@+{k}", p.name())),
-            "sparse": self.sparse, "late_one_batch": self.late_one_batch,
+            "sparse": self.sparse, "late_one_batch": self.late_one_batch, "empty_on_grid": self.empty_on_grid, "initial_one_batch": self.initial_one_batch,
         })
     }
 }
@@ -410,9 +431,11 @@ impl Hist {
                 }
             }
             let height = self.sim.tip_height() + 1;
-            let empty = self.cfg.sparse > 0.0 && self.rng.gen_bool(self.cfg.sparse);
+            let on_grid = self.cfg.empty_on_grid && self.cfg.retention.map_or(false, |n| height % n == 0);
+            let empty = on_grid || (self.cfg.sparse > 0.0 && self.rng.gen_bool(self.cfg.sparse));
             let n_tx = match self.rng.gen_range(0..10) {
                 _ if empty => 0,
+                0..=1 if self.cfg.empty_on_grid => 1,
                 0..=1 => 0,
                 2..=5 => 1,
                 6..=7 => 2,
@@ -646,6 +669,14 @@ impl Hist {
             let t = self.sim.tip_height();
             let _ = self.tip(t);
             self.call(mons, r);
+        }
+        if self.cfg.initial_one_batch {
+            let (from, tip) = (self.sim.base_height() + 1, self.sim.tip_height());
+            if self.scan(from, tip + 1 - from) {
+                self.call(mons, r);
+            } else {
+                self.classify_scan_failure();
+            }
         }
         // Targeted shape for a late-starting pool: scan everything in order, rewind to just below
         // the pool's first-ever commitment (its tree is EMPTY at that checkpoint), continue with a
